@@ -4,6 +4,7 @@
   Property theorems only (lemmas: Proofs/Lemmas/ModeSim.lean).
 -/
 import ChumskyModel.Proofs.Lemmas.ModeSim
+import ChumskyModel.Proofs.Lemmas.PrattMode
 set_option linter.unusedSimpArgs false
 namespace Chumsky
 
@@ -98,6 +99,19 @@ theorem c04_padded_by (n : Nat) (env : Env) (m : Mode) (a p : G) (st : St) :
   rename_i v1 st1
   cases run n env m a st1 <;> simp
 
+/-! ### Pratt parsers (`Model/Pratt.lean`) -/
+
+/-- **C04 for `atom.pratt(ops)`.** Every operator table over arbitrary atom / operator grammars, every `min_power`,
+    state and fuel: check = erase ∘ emit (the fold callbacks are the only thing check mode skips). -/
+theorem c04_pratt_check_eq_emit (fuel : Nat) (env : Env) (atom : G) (ops : List PrattOp) (st : St) :
+    runPratt fuel env .check atom ops st = (runPratt fuel env .emit atom ops st).erase :=
+  runPratt_modeSim fuel env atom ops st
+
+/-- the same for recursive expression grammars `recursive(|e| atom.pratt(ops))`, at every grammar position -/
+theorem c04_recursive_pratt_check_eq_emit (x : XEnv) (n : Nat) (env : Env) (g : G) (st : St) :
+    runX x n env .check g st = (runX x n env .emit g st).erase :=
+  (runX_modeSim x n).1 env g st
+
 /-- non-vacuity: a concrete non-trivial grammar on which check and parse both run to completion -/
 example : parseTop 20 { toks := [97, 98] } .check (.then_ (.just [97]) (.orNot (.just [98]))) =
     .result ⟨some .unit, []⟩ { pos := 2, insp := [97, 98] } := by decide
@@ -111,4 +125,6 @@ example : parseTop 20 { toks := [97, 98] } .check (.then_ (.just [97]) (.orNot (
 #print axioms c04_ignored
 #print axioms c04_delimited_by
 #print axioms c04_padded_by
+#print axioms c04_pratt_check_eq_emit
+#print axioms c04_recursive_pratt_check_eq_emit
 end Chumsky
